@@ -104,3 +104,11 @@ CASES += [
     {"name": "state energy sums the excited molecules only (seeded change of round 7)", "kind": "mutant", "rule": "C11-L", "edits": [
         ("quantarhei/builders/aggregate_states.py", "        for nn in self.elsignature:\n            en += \\\n", "        for nn in self.elsignature:\n          if nn > 0:\n            en += \\\n", 1)]},
 ]
+
+_CFM11 = "quantarhei/qm/corfunctions/cfmatrix.py"
+CASES += [
+    {"name": "function stored up to its cut-off index only (seeded change of round 8)", "kind": "mutant", "rule": "C11-M", "edits": [
+        (_CFM11, "            self.data[iof,:] = fce.data\n", "            self.data[iof,:ic+1] = fce.data[:ic+1]\n", 1)]},
+    {"name": "function stored with an explicit whole slice on both sides", "kind": "twin", "edits": [
+        (_CFM11, "            self.data[iof,:] = fce.data\n", "            self.data[iof,:] = fce.data[:]\n", 1)]},
+]
